@@ -132,6 +132,30 @@ P == INSTANCE RWLock WITH
        pending <- SortById(PendSet)
 Refines == P!PSpec
 
+(* ---- the inductive invariant that Apalache proves for the unbounded algorithm (apalache/ResourceInd.tla), ---- *)
+(* ---- checked here by TLC on the model that is replayed against the code                                   ---- *)
+Pending(t) == pc[t] = "waiting" /\ myid[t] >= bound
+AdmittedSet == {t \in Threads : Admitted(t)}
+Lo(i) == IF i = 1 THEN bound ELSE queue[i - 1].ub
+IndInv12 ==
+    /\ bound <= idCounter
+    /\ activeCount = Cardinality(AdmittedSet)
+    /\ (activeOp = "None") <=> (AdmittedSet = {})
+    /\ activeOp = "None" => Len(queue) = 0 /\ idCounter = 0 /\ bound = 0
+    /\ \A t \in AdmittedSet : kind[t] = activeOp
+    /\ activeOp = "Write" => Cardinality(AdmittedSet) <= 1
+    /\ \A t \in Threads : pc[t] = "waiting" => myid[t] < idCounter
+    /\ \A t, u \in Threads : (Pending(t) /\ Pending(u) /\ t # u) => myid[t] # myid[u]
+    /\ Cardinality({t \in Threads : Pending(t)}) = idCounter - bound
+    /\ (Len(queue) = 0) <=> (idCounter = bound)
+    /\ Len(queue) > 0 => queue[Len(queue)].ub = idCounter
+    /\ \A i \in DOMAIN queue : Lo(i) < queue[i].ub
+    /\ \A i \in DOMAIN queue : queue[i].type = "Write" => queue[i].ub = Lo(i) + 1
+    /\ \A t \in Threads : Pending(t) =>
+          \E i \in DOMAIN queue : Lo(i) <= myid[t] /\ myid[t] < queue[i].ub /\ queue[i].type = kind[t]
+    /\ \A i \in DOMAIN queue : i > 1 => ~(queue[i].type = "Read" /\ queue[i - 1].type = "Read")
+    /\ (Len(queue) > 0 /\ queue[1].type = "Read") => activeOp = "Write"
+
 (* ---- the listed properties on I ---- *)
 Holders == {t \in Threads : pc[t] = "held"}
 C01 == \A w \in Holders : kind[w] = "Write" => Holders = {w}
